@@ -1,5 +1,7 @@
 (* C16 -- Invalid admin messages are rejected by sequence number and change nothing. *)
-From SF Require Import Bytes Values Wire Parse Session Session_proofs Session_clean Session_handlers.
+From Coq Require Import List ZArith.
+From SF Require Import Bytes Values Wire Parse Session Session_proofs Session_clean Session_handlers
+  Session_c05 Session_hist Session_c10.
 
 (* every administrative handler hands a message that does not parse (integrity check or an
    unparsable field) or that is not permitted in the current state to RejectMessage *)
@@ -67,3 +69,19 @@ Theorem C16_reject_reference :
     end.
 Proof. exact reject_for_refs. Qed.
 Print Assumptions C16_reject_reference.
+
+(* the premises "clean" and "save_first" of the theorem above are not assumptions about some
+   unreachable state: they hold in every state a session reaches from construction through Run and
+   any history of operations (inbound messages of any content, application sends, pass-through
+   registrations, timer expiries, Logout, Stop) as long as its router is running *)
+Theorem C16_premises_reachable :
+  forall cfg ci c store pre ops sp op s0 o0 s' os,
+    c_fail_saves cfg = [] ->
+    (forall k m, store_get store k = Some m -> seq_of m = k /\ (k <= c)%Z) ->
+    Forall op_clean pre -> run_ops cfg (init_state cfg ci c store) pre = (sp, op) ->
+    run_session cfg sp = (s0, o0) ->
+    Forall op_clean ops ->
+    run_ops cfg s0 ops = (s', os) ->
+    s_router_stopped s' = false -> clean cfg s' /\ save_first s'.
+Proof. exact reachable_clean. Qed.
+Print Assumptions C16_premises_reachable.
